@@ -48,8 +48,8 @@ LEVEL = {'text': 'Machine-checked refinement of a state machine (caches, object 
                  '(offset-exact lookups name a unit/entry start). What the bytes decode to is abstract (parse '
                  'functions of the file description); decoding itself is the subject of C04/C05/C06.'}
 RULE = ('cases: (file, history, last operation); bfs = every abstract state reachable within the depth bound x every '
-        'operation of the alphabet on 3 synthesized files (three alphabets: DWARF, ELF, and call-frame decoding in every '
-        'order, two levels deeper), rnd = random histories on seed binaries with a Disturb '
+        'operation of the alphabet on 3 synthesized files (four alphabets: DWARF, ELF, call-frame decoding in every order '
+        '(two levels deeper), and interleaved iterators over the children of one entry (five levels deeper)), rnd = random histories on seed binaries with a Disturb '
         'after every call (minimised when failing). distinct = hash(kind, file, history); non-trivial = history '
         'of length >= 2 or an operation that fills a cache')
 
@@ -62,7 +62,7 @@ NSLOTS = 2
 LOCAL_REF_FORMS = ('DW_FORM_ref1', 'DW_FORM_ref2', 'DW_FORM_ref4', 'DW_FORM_ref8', 'DW_FORM_ref', 'DW_FORM_ref_udata')
 OTHER_REF_FORMS = ('DW_FORM_ref_sig8', 'DW_FORM_ref_sup4', 'DW_FORM_ref_sup8', 'DW_FORM_GNU_ref_alt')
 DWARF_OPS = {'CUAt', 'CUContaining', 'TopDIE', 'DIEAt', 'DIEGlobal', 'Parent', 'FollowRef', 'LineProg', 'LineEntries',
-             'CFI', 'CFIDecoded', 'NewIterCUs', 'NewIterDIEs', 'NewIterChildren', 'NewIterSiblings'}
+             'CFI', 'CFIDecoded', 'TUBySig', 'NewIterTUs', 'NewIterCUs', 'NewIterDIEs', 'NewIterChildren', 'NewIterSiblings'}
 
 
 # ------------------------------------------------------------------ serialisation of observed values
@@ -96,6 +96,11 @@ def ser_die(die):
 def ser_unit(cu):
     return ('unit', cu.cu_offset, cu.cu_die_offset, tuple(sorted((k, repr(v)) for k, v in cu.header.items())),
             cu.structs.dwarf_format, cu.structs.address_size, cu.structs.dwarf_version)
+
+
+def ser_tu(tu):
+    return ('tu', tu.tu_offset, tu.tu_die_offset, tuple(sorted((k, repr(v)) for k, v in tu.header.items())),
+            tu.structs.dwarf_format, tu.structs.address_size, tu.structs.dwarf_version)
 
 
 def ser_lphdr(h):
@@ -189,6 +194,12 @@ class Opened:
     def a_unit(self, cu):
         return ['unit', cu.cu_offset, self.ids.of(ser_unit(cu))]
 
+    def a_tu(self, tu):
+        from elftools.dwarf.typeunit import TypeUnit
+        if isinstance(tu, TypeUnit):
+            return ['vals', 0, tu.tu_offset, self.ids.of(ser_tu(tu))]
+        return ['vals', 1, tu.cu_offset, self.ids.of(ser_unit(tu))]      # a DWARF v5 type unit of .debug_info
+
     def a_section(self, sec):
         return ['vals', self.ids.name(sec.name), self.ids.of(ser_section(sec))]
 
@@ -254,6 +265,11 @@ class Opened:
             if op[2] < 0:
                 raise IndexError(op[2])
             return ['vals', self.ids.of(ser_decoded(self.cfi[eh][op[2]].get_decoded()))]
+        if k == 'TUBySig':
+            return self.a_tu(dw.get_TU_by_sig8(op[1]))
+        if k == 'NewIterTUs':
+            self.slots[op[1]], self.counts[op[1]] = dw.iter_TUs(), 0
+            return 'done'
         if k == 'NewIterCUs':
             self.slots[op[1]], self.counts[op[1]] = dw.iter_CUs(), 0
             return 'done'
@@ -312,6 +328,7 @@ class Opened:
     def a_value(self, v):
         from elftools.dwarf.die import DIE
         from elftools.dwarf.compileunit import CompileUnit
+        from elftools.dwarf.typeunit import TypeUnit
         from elftools.elf.sections import Section, Symbol
         from elftools.elf.dynamic import DynamicTag
         if v is None:
@@ -320,6 +337,8 @@ class Opened:
             return self.a_die(v)
         if isinstance(v, CompileUnit):
             return self.a_unit(v)
+        if isinstance(v, TypeUnit):
+            return self.a_tu(v)
         if isinstance(v, Section):
             return self.a_section(v)
         if isinstance(v, Symbol):
@@ -336,6 +355,21 @@ class Opened:
         di = _index_is(d.cu._dielist, d)
         return [ui, di]
 
+    @staticmethod
+    def hidden(obj, known):
+        """containers among the attributes of a cache object that the unchanged library does not have (none there, so
+        the state is the model's); a changed library that keeps more mutable state gets its states told apart, so
+        that the exploration does not merge a state with a different hidden memo into one seen before"""
+        try:
+            extra = sorted((k, len(v)) for k, v in vars(obj).items()
+                           if k not in known and isinstance(v, (list, dict, set)))
+        except TypeError:
+            return []
+        return [['hidden', k, n] for k, n in extra]
+
+    _DIE_ATTRS = frozenset(('attributes',))
+    _CU_ATTRS = frozenset(('_dielist', '_diemap', 'header'))
+
     def abs_state(self):
         dw, elf = self.dw, self.elf
         if dw is not None:
@@ -343,7 +377,9 @@ class Opened:
             units = []
             for cu in dw._cu_cache:
                 units.append([cu.cu_offset, cu.cu_die_offset, int(cu._abbrev_table is not None), list(cu._diemap),
-                              [[d.offset, self.die_name(d._parent), self.die_name(d._terminator)] for d in cu._dielist]])
+                              [[d.offset, self.die_name(d._parent), self.die_name(d._terminator)]
+                               + self.hidden(d, self._DIE_ATTRS) for d in cu._dielist]]
+                             + self.hidden(cu, self._CU_ATTRS))
             abbrevs = list(dw._abbrevtable_cache.keys())
             lines = [[off, len(lp.header['file_entry']), int(lp._decoded_entries is not None)]
                      for off, lp in dw._linetable_cache.items()]
@@ -359,10 +395,24 @@ class Opened:
         numtags = self.dyn._num_tags if self.dyn is not None else -1
         held = ['none' if es is None else [int(getattr(e, '_decoded_table', None) is not None) for e in es]
                 for es in self.cfi]
+        tumap = 'none'
+        if dw is not None and dw._type_units_by_sig is not None:
+            tumap = list(dw._type_units_by_sig.keys())
         return [keys, units, abbrevs, lines, secmap, symmap, numtags, self.cursors(),
-                [self.frame_state(i) for i in range(NSLOTS)], held[0], held[1]]
+                [self.frame_state(i) for i in range(NSLOTS)], held[0], held[1], tumap]
 
     def frame_state(self, slot):
+        """the frame of the live generator in a slot, read from its local variables; when the generator's code does
+        not have the local variables the unchanged library has (a refactoring, or a changed algorithm) the frame is
+        opaque: named by the generator function and the number of elements taken so far, which still separates
+        the states of the exploration; such a state then differs from the model's (model drift), never a crash"""
+        try:
+            return self._frame_state(slot)
+        except (KeyError, AttributeError, TypeError, IndexError):
+            g = self.slots[slot]
+            return ['opaque', g.gi_code.co_name, self.counts[slot]]
+
+    def _frame_state(self, slot):
         g = self.slots[slot]
         if g is None or g.gi_frame is None:
             return 'empty'
@@ -371,6 +421,8 @@ class Opened:
         loc = g.gi_frame.f_locals
         if fn == '_parse_CUs_iter':
             return ['cus', loc['offset']]
+        if fn == '_parse_TUs_iter':
+            return ['tus', loc['offset']]
         if fn == 'iter_DIE_children':
             if created:
                 return ['children', ['start', self.die_name(loc['die'])]]
@@ -662,6 +714,7 @@ def tabulate(meta, fresh_each=True, die_budget=4000):
     units, abbrevs, lines = [], {}, {}
     cfi, ehcfi = [], []
     cfi_ents, ehcfi_ents = [], []
+    tus, types_size = [], 0
     info_size = abbrev_size = 0
     meta['has_dwarf'] = False
     meta['units'] = []
@@ -686,7 +739,8 @@ def tabulate(meta, fresh_each=True, die_budget=4000):
                 ab = cu['debug_abbrev_offset']
                 dwx = _fresh_dw(image)
                 abbrevs.setdefault(ab, [ab, ids.of(('abbrev', ab)), abbrev_end])
-                units.append([off, [cu.size, ab, ids.of(ser_unit(cu))], cu.cu_die_offset, tree])
+                tsig = [cu['type_signature']] if cu.header.get('unit_type') in ('DW_UT_type', 'DW_UT_split_type') else []
+                units.append([off, [cu.size, ab, ids.of(ser_unit(cu)), tsig], cu.cu_die_offset, tree])
                 meta['units'].append(dict(off=off, size=cu.size, die_off=cu.cu_die_offset, stub=stub, tree=tree))
                 # line program
                 stmt = tree[1][5]
@@ -709,6 +763,11 @@ def tabulate(meta, fresh_each=True, die_budget=4000):
                         meta['lp_disagree'] = True
                     lines.setdefault(lo, rec)
                 off += cu.size
+            if dw.debug_types_sec is not None:
+                types_size = dw.debug_types_sec.size
+                for tu in _fresh_dw(image).iter_TUs():
+                    tus.append([tu.tu_offset, tu['unit_length'] + tu.structs.initial_length_field_size(),
+                                tu['signature'], ids.of(ser_tu(tu)), tu.tu_die_offset])
             if dw.debug_frame_sec is not None and dw.debug_frame_sec.size > 0:
                 d3 = _fresh_dw(image)
                 cfi = [ids.of(ser_cfi(d3.CFI_entries())), d3.debug_frame_sec.stream.tell()]
@@ -725,14 +784,17 @@ def tabulate(meta, fresh_each=True, die_budget=4000):
             notes.append('DWARF of %s not tabulated: %s: %s' % (meta['name'], type(ex).__name__, ex))
             units, abbrevs, lines, cfi, ehcfi, info_size, abbrev_size = [], {}, {}, [], [], 0, 0
             cfi_ents, ehcfi_ents = [], []
+            tus, types_size = [], 0
             meta['units'] = []
     meta['has_cfi'], meta['has_ehcfi'] = bool(cfi), bool(ehcfi)
     meta['cfi_ents'] = [cfi_ents, ehcfi_ents]
+    meta['tus'] = tus
+    meta['tu_sigs'] = [x[2] for x in tus] + [u[1][3][0] for u in units if u[1][3]]
     meta['lines'] = lines
     return [info_size, units, abbrev_size, list(abbrevs.values()), list(lines.values()), cfi, ehcfi,
             [len(image), shoff, shnum, shentsize, shstr_base], shdrs, list(strs.values()),
             [phoff, phentsize], phdrs, [sym_base, sym_entsize, strtab_base], syms, [dyn_base, dyn_entsize], dyns,
-            cfi_ents, ehcfi_ents]
+            cfi_ents, ehcfi_ents, types_size, tus]
 
 
 # ------------------------------------------------------------------ files
@@ -808,6 +870,28 @@ def alphabet(meta, machine):
         ops += [['LineProg', u0], ['LineEntries', ul], ['CFI', 0]]
         ops += [['NewIterCUs', 0], ['NewIterDIEs', 0, u0], ['NewIterChildren', 1] + list(lab(pick['nos'])),
                 ['NewIterSiblings', 1] + list(lab(pick['withsib'])), ['Next', 0], ['Next', 1]]
+    elif machine == 'DN':
+        # navigation only, explored deeper: two generators over the children of ONE entry interleaved with the
+        # queries that walk the same children list to its end (get_parent, iter_siblings)
+        u = meta['units'][0]
+        best = None
+        def walk(n):
+            nonlocal best
+            off, raw, kids, toff, traw = n
+            if len(kids) >= 2 and (best is None or len(kids) < len(best[2])):
+                best = n
+            for k in kids:
+                walk(k)
+        walk(u['tree'])
+        if best is not None:
+            P, c1, c2 = best[0], best[2][0][0], best[2][1][0]
+            ops += [['NewIterChildren', 0, u['off'], P], ['NewIterChildren', 1, u['off'], P], ['Next', 0], ['Next', 1],
+                    ['Parent', u['off'], c2], ['NewIterSiblings', 1, u['off'], c1], ['DIEAt', u['off'], c1]]
+    elif machine == 'DT':
+        # type units: a generator over them interleaved with lookups by signature
+        sigs = meta['tu_sigs']
+        ops += [['NewIterTUs', 0], ['Next', 0], ['TUBySig', sigs[0]], ['TUBySig', sigs[-1]], ['TUBySig', 0x1234],
+                ['Disturb', 12, 3], ['CUAt', meta['units'][-1]['off']]]
     elif machine == 'DF':
         # call-frame information only: fetching the entry list and decoding its entries in every order
         ops += [['CFI', 0], ['Disturb', 4, 5]]
@@ -971,6 +1055,8 @@ def _hkey(name, history):
     return (name, repr(history))
 
 
+TYPE_UNIT_FILES = ['testfiles_for_dwarfdump/dwarf_v4_ticcs.elf']      # 119 type units in .debug_types
+
 RANDOM_FILES = [
     'testfiles_for_unittests/lib_versioned64.so.1.elf', 'testfiles_for_unittests/dwarf_v5_forms.debug',
     'testfiles_for_unittests/dwarf_lineprog_data16.elf', 'testfiles_for_unittests/dwarf_debug_types.elf',
@@ -1000,6 +1086,9 @@ def random_op(rng, meta):
             n = len(meta['cfi_ents'][eh])
             if n:
                 choices += [['CFIDecoded', eh, rng.randrange(n)] for _ in range(3)]
+        if meta['tu_sigs']:
+            choices += [['NewIterTUs', rng.randrange(NSLOTS)], ['TUBySig', rng.choice(meta['tu_sigs'])],
+                        ['TUBySig', rng.choice(meta['tu_sigs'])], ['TUBySig', 0x1234]]
         if full:
             u = rng.choice(full)
             ents = u.get('ents')
@@ -1061,8 +1150,8 @@ def gen(ctx):
         if meta.get('broken'):
             cases.append(('tab', [name, []]))
             continue
-        for machine in ('D', 'E', 'DF'):
-            d = depth + 2 if machine == 'DF' else depth
+        for machine in ('D', 'E', 'DF', 'DN'):
+            d = {'DF': depth + 2, 'DN': depth + 5}.get(machine, depth)
             edges, nstates, closed = explore(meta, machine, d)
             while len(edges) > budget and d > 1:      # never silently: the bound actually used is in the evidence
                 d -= 1
@@ -1072,6 +1161,20 @@ def gen(ctx):
             for h, a, st in edges:
                 _CACHE[_hkey(name, h)] = (a, st)
                 cases.append(('bfs', [name, h]))
+    for name in TYPE_UNIT_FILES:
+        try:
+            meta = load_file(name)
+        except Exception as ex:
+            ctx.notes.append('seed %s not usable: %s' % (name, ex))
+            continue
+        if len(meta.get('tu_sigs', [])) < 2:
+            continue
+        edges, nstates, closed = explore(meta, 'DT', depth)
+        stats['%s/DT' % name.split('/')[-1]] = dict(depth=depth, states=nstates, edges=len(edges), closed=closed,
+                                                     alphabet=len(alphabet(meta, 'DT')))
+        for h, a, st in edges:
+            _CACHE[_hkey(name, h)] = (a, st)
+            cases.append(('bfs', [name, h]))
     # long random histories with a Disturb after every call
     n_hist = ctx.scale(1, 6)
     total = ctx.scale(1000, 100000)
